@@ -362,6 +362,21 @@ pub async fn run(out: &mut Out) {
         }
         let obs = observe(out, &mut x, h).await;
         out.case("G", &obs);
+        if h == 100 || h == 3 {
+            // more connections than any internal queue holds, ending within one collector interval (started right after a
+            // tick): 160 short (denied) connections
+            for _ in 0..2 {
+                let n = 160;
+                for _ in 0..n {
+                    one_connection(&mut x, &mut rng, 1, false).await;
+                }
+                out.case(&format!("K {}", n), "ok");
+                out.stat_add("connections", n as u64);
+                out.stat("burst_within_one_tick");
+                let obs = observe(out, &mut x, h).await;
+                out.case("G", &obs);
+            }
+        }
         let _ = std::fs::remove_file(&x.log_path);
     }
 }
